@@ -3,7 +3,7 @@ use harper_core::parsers::{Markdown, MarkdownOptions, Parser};
 use harper_core::{Punctuation, Span, Token, TokenKind};
 use itertools::Itertools;
 
-use super::without_initiators;
+use super::{CodeFenceTracker, without_initiators};
 
 #[derive(Clone)]
 pub struct JsDoc {
@@ -25,8 +25,16 @@ impl Parser for JsDoc {
         let mut tokens = Vec::new();
 
         let mut chars_traversed = 0;
+        let mut code_fences = CodeFenceTracker::default();
 
         for line in source.split(|c| *c == '\n') {
+            // Each line is parsed on its own, so the Markdown parser cannot see that a line sits
+            // inside a fenced code block (an `@example`, say).
+            if code_fences.line_is_fenced(line) {
+                chars_traversed += line.len() + 1;
+                continue;
+            }
+
             let mut new_tokens = parse_line(line, self.inner.clone());
 
             if chars_traversed + line.len() < source.len() {
